@@ -1364,6 +1364,10 @@ def _main(tier, seed, replay=None):
     tagged = []
     for (sc, m), t in zip(jobs, mt):
         if 'machinery' in t:
+            if 'not found in' in str(t['machinery']):
+                # a textual mutant whose site is gone from the tree under test is skipped, not an error
+                out.sensitivity['mutant:' + m] = 'skipped: the patched text is not in the code under test'
+                continue
             raise common.MachineryError('mutant %s: harness failure: %s' % (m, t['machinery']))
         t['tag'] = 'mutant:' + m
         tagged.append(t)
